@@ -127,6 +127,22 @@ def rule_r15(ctx, prog, rule="R15"):
     return n
 
 
+def option_defs(c, l, depth=0):
+    """(def site, expression) of every definition that can flow into local l through plain copies/moves"""
+    out = []
+    for d in c.defs_of(l):
+        if d[0] == "entry" or isinstance(d[1], tuple):
+            continue
+        if d[1] != "term":
+            s = c.blocks[d[0]]["stmts"][d[1]]
+            rv = s["rv"]
+            if rv["k"] == "use" and rv["a"]["k"] in ("move", "copy") and not rv["a"]["pl"]["p"] and depth < 4:
+                out.extend(option_defs(c, rv["a"]["pl"]["l"], depth + 1))
+                continue
+        out.append((d, strip(c.def_expr(l, d))))
+    return out
+
+
 def rule_lane_forms(ctx, prog, rule="R15"):
     """map_axis_skipnan_mut = map_axis_mut(axis, mapping ∘ remove_nan_mut);
     quantile_axis_skipnan_mut: per lane strip, empty ⇒ from_not_nan_opt(None), else plain quantile with the caller's q/strategy"""
@@ -212,10 +228,7 @@ def rule_lane_forms(ctx, prog, rule="R15"):
             argl = c.term(r[4])["args"][0]
             if argl["k"] in ("move", "copy"):
                 l = argl["pl"]["l"]
-                for d in c.defs_of(l):
-                    if d[0] == "entry" or d[1] == "term":
-                        continue
-                    e = strip(c.def_expr(l, d))
+                for d, e in option_defs(c, l):
                     if isinstance(e, tuple) and e[0] == "agg" and e[2] == "None" and branch_dominates(c, sbb, tr, d[0]):
                         none_on_empty = True
         # every non-None payload handed to from_not_nan_opt is that plain quantile (no second way to compute the result)
@@ -226,10 +239,7 @@ def rule_lane_forms(ctx, prog, rule="R15"):
                 l = argl["pl"]["l"]
                 all_plain = True
                 n_some = 0
-                for d in c.defs_of(l):
-                    if d[0] == "entry" or (isinstance(d[1], tuple)):
-                        continue
-                    e = strip(c.def_expr(l, d))
+                for d, e in option_defs(c, l):
                     if isinstance(e, tuple) and e[0] == "agg" and e[2] == "None":
                         continue
                     if isinstance(e, tuple) and e[0] == "agg" and e[2] == "Some":
